@@ -77,3 +77,7 @@ func VerifC07_CanaryDeploymentTargetSuffices() {
 	verifrt.Assert(ctx.IsBatchReady() == nil, "C07.canarydeploy.targetSufficesForReadiness")
 	verifrt.Cover("done")
 }
+
+// C11: readiness is judged against the pods the batch really calls for: the batch context's targets equal the
+// reference computed from the plan (obligations of the C01 batch-context harness of this workload kind).
+func VerifC11_CanaryDeploymentReadinessTarget() { VerifC01_CanaryDeploymentBatch() }
